@@ -37,6 +37,9 @@ type Connection struct {
 	// Mutex for protecting rooms
 	roomsMu sync.RWMutex
 
+	// Serialises JoinRoom/LeaveRoom of this connection
+	membershipMu sync.Mutex
+
 	// Path parameters extracted from the WebSocket route pattern (e.g., :room from /chat/:room)
 	PathParams map[string]string
 
@@ -300,6 +303,11 @@ func (c *Connection) GetData(key string) (interface{}, bool) {
 
 // JoinRoom adds this connection to a room
 func (c *Connection) JoinRoom(roomName string) {
+	// Joins and leaves of one connection are serialised so that its own view
+	// (c.rooms) and the rooms' membership change together.
+	c.membershipMu.Lock()
+	defer c.membershipMu.Unlock()
+
 	c.roomsMu.Lock()
 	c.rooms[roomName] = true
 	c.roomsMu.Unlock()
@@ -308,6 +316,14 @@ func (c *Connection) JoinRoom(roomName string) {
 	// before any subsequent operations (like broadcast_to_room)
 	rm := c.hub.GetRoomManager()
 	if err := rm.AddConnectionToRoom(c, roomName); err != nil {
+		// The room did not accept the connection (e.g. it is full): unless the
+		// connection already was a member, do not leave the room recorded as
+		// one this connection is in.
+		if room, exists := rm.GetRoom(roomName); !exists || !room.Has(c) {
+			c.roomsMu.Lock()
+			delete(c.rooms, roomName)
+			c.roomsMu.Unlock()
+		}
 		log.Printf("[WS] Failed to join room %s: %v", roomName, err)
 	} else {
 		log.Printf("[WS] Connection %s joined room %s", c.ID, roomName)
@@ -316,6 +332,9 @@ func (c *Connection) JoinRoom(roomName string) {
 
 // LeaveRoom removes this connection from a room
 func (c *Connection) LeaveRoom(roomName string) {
+	c.membershipMu.Lock()
+	defer c.membershipMu.Unlock()
+
 	c.roomsMu.Lock()
 	delete(c.rooms, roomName)
 	c.roomsMu.Unlock()
